@@ -329,14 +329,27 @@ open Streamed
 
 theorem stepInput_spec (ti : TxIn) (pi pi' : PInput) (f : Bool) (h : stepInput ti pi = some (pi', f)) :
     match pi.nonWitnessUtxo with
-    | none => pi' = pi ∧ f = false
+    | none => pi' = pi ∧ f = false ∧ ∀ w, pi.witnessUtxo = some w → isP2pkh w.script = false
     | some ptx =>
       ptx.txid = ti.prevTxid ∧ ∃ o, ptx.outputs[ti.vout]? = some o ∧
         pi'.witnessUtxo = some o ∧ f = isWitnessProgram o.script ∧
         (pi.witnessUtxo = none ∨ pi.witnessUtxo = some o) := by
   unfold stepInput at h
   cases hn : pi.nonWitnessUtxo with
-  | none => simp [hn] at h; simp [h.1, h.2]
+  | none =>
+    simp only [hn] at h
+    cases hw : pi.witnessUtxo with
+    | none => simp [hw] at h; simp [h.1, h.2]
+    | some w =>
+      simp only [hw] at h
+      split at h
+      · cases h
+      · rename_i hp
+        simp at h
+        refine ⟨h.1.symm, h.2, ?_⟩
+        intro w' hw'
+        cases hw'
+        simpa using hp
   | some ptx =>
     simp only [hn] at h
     split at h
@@ -411,14 +424,15 @@ theorem stepAll_get (tis : List TxIn) (pis ps : List PInput) (fs : List Bool)
     unchanged, there is one flag and one summarised input per PSBT input, and for every input:
     with a supplied previous tx, its txid is the one the input spends, the decoded previous output is
     output `vout` of that tx (and agrees with a supplied witness_utxo), and the segwit flag is true
-    iff that output is a witness program; without one, the input is unchanged and the flag is false. -/
+    iff that output is a witness program; without one, the input is unchanged, the flag is false, and a supplied witness_utxo is not a
+    legacy p2pkh output (such a PSBT is refused: the value could not be verified). -/
 theorem C19_psbt (p p' : Psbt) (flags : List Bool) (h : decode p = some (p', flags)) :
     p'.txInputs = p.txInputs ∧ p'.txRest = p.txRest ∧
     p'.inputs.length = p.inputs.length ∧ flags.length = p.inputs.length ∧
     ∀ (i : Nat) ti pi, p.txInputs[i]? = some ti → p.inputs[i]? = some pi →
       ∃ pi' f, p'.inputs[i]? = some pi' ∧ flags[i]? = some f ∧
         match pi.nonWitnessUtxo with
-        | none => pi' = pi ∧ f = false
+        | none => pi' = pi ∧ f = false ∧ ∀ w, pi.witnessUtxo = some w → isP2pkh w.script = false
         | some ptx =>
           ptx.txid = ti.prevTxid ∧ ∃ o, ptx.outputs[ti.vout]? = some o ∧
             pi'.witnessUtxo = some o ∧ f = isWitnessProgram o.script ∧
@@ -475,6 +489,20 @@ example : decode
   = some ({ txInputs := [{ prevTxid := [1], vout := 1 }, { prevTxid := [2], vout := 0 }], txRest := [],
             inputs := [{ nonWitnessUtxo := none, witnessUtxo := some ⟨7, [0, 2, 9, 9]⟩ },
                        { nonWitnessUtxo := none, witnessUtxo := none }] }, [true, false]) := by
+  decide +kernel
+
+/-- a legacy p2pkh coin presented only through witness_utxo is refused; the same script with the
+    previous transaction supplied is accepted (flag false) -/
+example : stepInput { prevTxid := [1], vout := 0 }
+    { nonWitnessUtxo := none,
+      witnessUtxo := some ⟨1500000, [0x76, 0xa9, 0x14] ++ List.replicate 20 7 ++ [0x88, 0xac]⟩ } = none := by
+  decide +kernel
+
+example : stepInput { prevTxid := [1], vout := 0 }
+    { nonWitnessUtxo := some { txid := [1], outputs := [⟨2000000, [0x76, 0xa9, 0x14] ++ List.replicate 20 7 ++ [0x88, 0xac]⟩] },
+      witnessUtxo := none }
+    = some ({ nonWitnessUtxo := none,
+              witnessUtxo := some ⟨2000000, [0x76, 0xa9, 0x14] ++ List.replicate 20 7 ++ [0x88, 0xac]⟩ }, false) := by
   decide +kernel
 
 end VlsModel.Props.C19
